@@ -19,7 +19,7 @@ from fractions import Fraction as F
 
 from vlib.loader import Repo, AnalysisError
 from vlib import indic_run as IR
-from vlib.indic_vals import NA, D, NAN, Undecided
+from vlib.indic_vals import NA, D, NAN, Undecided, eval_dag
 from vlib.indic_sym import dag_to_R, atom_name, sym_max, sym_min, sym_abs, sym_where_pos, relu, generic
 from vlib.poly import R, Op
 
@@ -526,9 +526,124 @@ def check_ma_selector(repo, rep):
     rep.floor(rid, 25)
 
 
+# ------------------------------------------------------------------ R3: definitions compared on witness valuations
+def _wilder_refs(val, n, p):
+    """textbook Wilder directional movement system on one valuation (plain floats): returns dict name -> list (None before defined)"""
+    H = [val("c", k, 3) for k in range(n)]
+    L = [val("c", k, 4) for k in range(n)]
+    C = [val("c", k, 2) for k in range(n)]
+    pdm, mdm, tr = [None], [None], [None]
+    for k in range(1, n):
+        up, dn = H[k] - H[k - 1], L[k - 1] - L[k]
+        pdm.append(up if (up > dn and up > 0) else 0.0)
+        mdm.append(dn if (dn > up and dn > 0) else 0.0)
+        tr.append(max(H[k] - L[k], abs(H[k] - C[k - 1]), abs(L[k] - C[k - 1])))
+
+    def wilder_sum(x):          # Wilder's running sum: seed = sum of the first p, then S - S/p + x
+        out = [None] * n
+        if n > p:
+            out[p] = sum(x[1:p + 1])
+            for k in range(p + 1, n):
+                out[k] = out[k - 1] - out[k - 1] / p + x[k]
+        return out
+    sp, sm, st = wilder_sum(pdm), wilder_sum(mdm), wilder_sum(tr)
+    pdi = [None if st[k] is None else (0.0 if st[k] == 0 else 100.0 * sp[k] / st[k]) for k in range(n)]
+    mdi = [None if st[k] is None else (0.0 if st[k] == 0 else 100.0 * sm[k] / st[k]) for k in range(n)]
+    return {"dm.plus": sp, "dm.minus": sm, "di.plus": pdi, "di.minus": mdi}
+
+
+def check_witness_definitions(repo, rep):
+    rid = "C15-R3"
+    rep.rule(rid, "Wilder's directional movement system (dm, di): the extracted expression of every output element is evaluated on six "
+                  "adversarial candle valuations and compared with the textbook definition computed independently (+DM / -DM, true "
+                  "range, Wilder running sums seeded with the sum of the first p values, DI = 100 * smoothed DM / smoothed TR, hence "
+                  "inside [0, 100]); a numerical difference is a counterexample, agreement is reported as agreement on the witnesses")
+    n, p = 16, 3
+    for name, fields in (("dm", ("plus", "minus")), ("di", ("plus", "minus"))):
+        try:
+            out = run_ind(repo, name, n=n, period=p)
+        except Undecided as e:
+            rep.undecided_item(f"{name}: {e}")
+            continue
+        for f in fields:
+            arr = out.get(f)
+            if not isinstance(arr, NA) or arr.ndim != 1 or len(arr.data) != n:
+                rep.undecided_item(f"{name}.{f}: output is not a series of {n} entries")
+                continue
+            bad = None
+            for vn, val in IR.valuations(n):
+                ref = _wilder_refs(val, n, p)[f"{name}.{f}"]
+                for i in range(n):
+                    try:
+                        g = eval_dag(arr.data[i], val)
+                    except Undecided as e:
+                        g = None
+                    r = ref[i]
+                    gn = g is None or (isinstance(g, float) and g != g)
+                    if r is None:
+                        continue            # before the definition starts: the warm-up convention is not part of the definition
+                    if gn or abs(g - r) > 1e-9 * max(1.0, abs(r)):
+                        bad = (vn, i, g, r)
+                        break
+                    if name == "di" and not (-1e-9 <= g <= 100 + 1e-9):
+                        bad = (vn, i, g, "a value in [0, 100]")
+                        break
+                if bad:
+                    break
+            if bad:
+                rep.violation(rid, f"{name}|{f}", f"{name}(period={p}).{f} element {bad[1]} is {bad[2]!r} on the valuation '{bad[0]}', Wilder's definition gives {bad[3]!r}")
+            rep.instance(rid, f"{name}|{f}", {"indicator": name, "field": f, "agrees_on_witnesses": bad is None})
+    rep.floor(rid, 4)
+
+
+def check_nan_poisoning(repo, rep):
+    rid = "C15-R4"
+    rep.rule(rid, "selectable moving averages: for every indicator with a matype-style parameter, choosing a recursive average (1 = ema) "
+                  "must not turn the series into NaN: the last element of the sequential series, evaluated on the witness valuations, is "
+                  "a number whenever it is one with the default average (a recursive average seeded on the NaN warm-up of its input never "
+                  "recovers)")
+    from props.c13 import ma_params
+    n = 90
+    cnt = 0
+    for name, rel, fn in IR.public_indicators(repo):
+        mt = ma_params(fn)
+        if not mt or not any(a.arg == "sequential" for a in fn.args.args):
+            continue
+        r0 = IR.run_indicator(repo, rel, fn, n, True, overrides={})
+        r1 = IR.run_indicator(repo, rel, fn, n, True, overrides={k: 1 for k in mt})
+        if r0[0] != "ok" or r1[0] != "ok":
+            rep.undecided_item(f"{name}: matype variant not interpretable ({r0[0]} / {r1[0]})")
+            continue
+        f0, f1 = dict(IR.fields_of(r0[1])), dict(IR.fields_of(r1[1]))
+        for f in f0:
+            a, b = f0[f], f1.get(f)
+            if not (isinstance(a, NA) and isinstance(b, NA) and a.ndim == 1 and b.ndim == 1 and a.data and b.data):
+                continue
+            try:
+                num0 = nan1 = 0
+                vals = IR.valuations(n)
+                for vn, val in vals:
+                    x, y = eval_dag(a.data[-1], val), eval_dag(b.data[-1], val)
+                    if isinstance(x, float) and x == x:
+                        num0 += 1
+                        if y is None or (isinstance(y, float) and y != y):
+                            nan1 += 1
+            except Undecided as e:
+                rep.undecided_item(f"{name}.{f}: {e}")
+                continue
+            cnt += 1
+            if num0 and nan1 == num0:
+                rep.violation(rid, f"{name}|{f}|matype=ema", f"{name}({', '.join(k + '=1' for k in mt)}): the last entry of series '{f}' is NaN on every witness valuation although it is a "
+                                                            f"number with the default moving average - the recursive average is seeded on NaN warm-up values and never recovers")
+            rep.instance(rid, f"{name}|{f}", {"indicator": name, "field": f, "numeric_with_default": num0, "nan_with_ema": nan1})
+    rep.floor(rid, 15)
+
+
 def run(repo: Repo, rep, tier: str):
     rep.assume("symbolic identities are for input length 12 (ma selector: 70) and periods 3/4/5; exact rational arithmetic; comparisons, max/min, abs, sqrt are canonical opaque atoms")
     rep.guarded(check_ma_selector, repo, rep)
+    rep.guarded(check_witness_definitions, repo, rep)
+    rep.guarded(check_nan_poisoning, repo, rep)
     rep.guarded(check_windowed, repo, rep)
     rep.guarded(check_recurrences, repo, rep)
     rep.undecided_item("numeric ranges of bounded oscillators, band ordering, non-negativity and price homogeneity (value properties; follow from the decided formulas only by further arithmetic reasoning)")
